@@ -235,6 +235,9 @@ def forbidden_scan():
     return bad
 
 
+CURRENT_TIER = ["quick"]      # set by Result(); coq_prove adds coqchk in the thorough tier
+
+
 def coq_prove(pid, timeout=1500, clean=False):
     """(Re)build Properties_<pid>.vo and its cone.  Returns a dict:
        ok, theorems (names), n_theorems, assumptions (text), log, failed (list of files)."""
@@ -264,9 +267,21 @@ def coq_prove(pid, timeout=1500, clean=False):
             assum.append("Closed under the global context (x%d)" % closed)
         for m in re.finditer(r"Axioms:\n((?:[ \t]*\S.*\n?)+)", out):
             assum.append("Axioms: " + " ".join(m.group(1).split()))
+        chk = None
+        if ok and CURRENT_TIER[0] == "thorough":
+            # independent re-check of the compiled property file and everything it depends on
+            rc2, o2, e2 = sh(["coqchk", "-o", "-silent", "-Q", ".", "SC", "SC.Properties_%s" % pid], cwd=COQ, timeout=1800)
+            m = re.search(r"\* Axioms:\s*(.*?)\n\s*\n\s*\*", o2 + e2, re.S)
+            axioms = " ".join(m.group(1).split()) if m else "?"
+            chk = {"ok": rc2 == 0, "axioms": axioms}
+            assum.append("coqchk -o SC.Properties_%s: %s; axioms: %s" % (pid, "ok" if rc2 == 0 else "FAILED", axioms))
+            if rc2 != 0:
+                ok = False
+                failed.append("coqchk")
+                out += "\ncoqchk:\n" + (o2 + e2)[-3000:]
         return {"ok": ok, "theorems": theorems, "n_theorems": len(theorems),
                 "assumptions": assum, "log": (out + err)[-6000:], "failed": sorted(set(failed)),
-                "wall_s": time.time() - t0, "forbidden": forbidden_scan()}
+                "wall_s": time.time() - t0, "forbidden": forbidden_scan(), "coqchk": chk}
 
 
 def extract_and_build_drivers():
@@ -329,6 +344,7 @@ class Result:
 
     def __init__(self, pid, tier, seed):
         self.pid, self.tier, self.seed = pid, tier, seed
+        CURRENT_TIER[0] = tier
         self.t0 = time.time()
         self.violations = 0
         self.known = {}
@@ -396,6 +412,8 @@ def proof_coverage(res, pr, extra_trusted=()):
     res.coverage["discharged"] = pr["n_theorems"] if pr["ok"] else 0
     res.coverage["theorems"] = pr["theorems"]
     res.coverage["checker_cmd"] = "make -C /verif/coq -k -j%d Properties_%s.vo (coqc 8.16.1, full .vo build)" % (NCPU, res.pid)
+    if pr.get("coqchk"):
+        res.coverage["checker_cmd"] += "; coqchk -o -silent -Q . SC SC.Properties_%s" % res.pid
     res.coverage["print_assumptions"] = pr["assumptions"]
     res.coverage["trusted_base"] = TRUSTED_BASE_COMMON + list(extra_trusted)
     res.coverage["coq_wall_s"] = round(pr["wall_s"], 1)
